@@ -1521,6 +1521,8 @@ class Interp:
         return SSet([self.hashable(self.eval(e, fr)) for e in node.elts])
 
     def e_Dict(self, node, fr):
+        if not node.keys and getattr(self, "empty_dict_hook", None) is not None:
+            return self.empty_dict_hook()
         d = SDict()
         for k, v in zip(node.keys, node.values):
             if k is None:
